@@ -13,8 +13,7 @@ package kernel
 //@ assume func crypto.CosiCommitNonce
 //@   modifies nothing
 //@   ensures result != nil
-//@ assume func (n *crypto.CosiNonce) Public
-//@   modifies nothing
+//@ -- (*crypto.CosiNonce).Public: contract of C12 (crypto/zz_contracts_c12_verif.go); its precondition is trusted here (trustpre Public)
 //@ assume func (chain *Chain) cosiAcceptedNodesListShuffle
 //@   modifies nothing
 //@   ensures forall i int :: 0 <= i && i < len(result) ==> result[i] != nil
